@@ -46,6 +46,10 @@ def replay_form(p: dict) -> int:
         from .exprcheck import replay_expr_purity
 
         return replay_expr_purity(p)
+    if p.get("kind") == "multimod":
+        from .multimod import replay_multimod
+
+        return replay_multimod(p)
     if p.get("kind") == "permflag":
         from .kernelprops import replay_permflag
 
